@@ -98,3 +98,182 @@ func c13Facts(fc *facts) {
 	fc.set("segURLAlphabet", b2u(enc == "base64.RawURLEncoding.EncodeToString" || enc == "base64.URLEncoding.EncodeToString"), true, "")
 	fc.set("segPadded", b2u(enc == "base64.URLEncoding.EncodeToString" || enc == "base64.StdEncoding.EncodeToString"), true, "")
 }
+
+// c13SingleAnnouncer — HARD, structural (a fact about locking and goroutines; no correspondence fallback):
+//
+//	(i)   every send on <recv>.retainedCheckpointsUpdated in store.go is in Store.announceRetained;
+//	(ii)  every append to <recv>.state.retainedToAnnounce, and every `go <recv>.announceRetained()`, is in
+//	      finishSnapshotAsync inside its stateMu section (after a top-level `stateMu.Lock()` statement and before the
+//	      next top-level `stateMu.Unlock()`), the go statement additionally inside an `if !<recv>.state.announcing`
+//	      whose body sets the flag;
+//	(iii) announceRetained takes its items from the front of the queue, and clears `announcing`, only between
+//	      stateMu.Lock() and stateMu.Unlock(), and sends outside the lock, one item per loop iteration.
+func init() { extraFactFns = append(extraFactFns, c13AnnouncerFact) }
+
+func c13AnnouncerFact(fc *facts) {
+	f := parseFile("storage/snapshots/store.go")
+	ok := true
+	fail := func() { ok = false }
+	var announce, finish *ast.FuncDecl
+	for _, d := range f.Decls {
+		fd, isFn := d.(*ast.FuncDecl)
+		if !isFn || fd.Body == nil {
+			continue
+		}
+		recv := recvName(fd)
+		inAnnounce := fd.Name.Name == "announceRetained" && findFunc(f, "Store", "announceRetained") == fd
+		inFinish := fd.Name.Name == "finishSnapshotAsync" && findFunc(f, "Store", "finishSnapshotAsync") == fd
+		if inAnnounce {
+			announce = fd
+		}
+		if inFinish {
+			finish = fd
+		}
+		ast.Inspect(fd.Body, func(x ast.Node) bool {
+			switch n := x.(type) {
+			case *ast.SendStmt:
+				if s, isSel := n.Chan.(*ast.SelectorExpr); isSel && s.Sel.Name == "retainedCheckpointsUpdated" && !inAnnounce {
+					fail() // (i)
+				}
+			case *ast.GoStmt:
+				if s, isSel := n.Call.Fun.(*ast.SelectorExpr); isSel && s.Sel.Name == "announceRetained" && !inFinish {
+					fail() // (ii)
+				}
+			case *ast.AssignStmt:
+				for _, l := range n.Lhs {
+					if s, isSel := l.(*ast.SelectorExpr); isSel && (s.Sel.Name == "retainedToAnnounce" || s.Sel.Name == "announcing") && !inFinish && !inAnnounce {
+						fail() // the queue and the flag are touched nowhere else
+					}
+				}
+			}
+			_ = recv
+			return true
+		})
+	}
+	if announce == nil || finish == nil {
+		fc.set("c13SingleAnnouncer", 0, true, "")
+		return
+	}
+	// lockedRegions: for a statement list, which top-level statements lie between Lock() and Unlock() statements
+	locked := func(list []ast.Stmt, recv string) map[ast.Stmt]bool {
+		in := false
+		res := map[ast.Stmt]bool{}
+		for _, st := range list {
+			if es, isExpr := st.(*ast.ExprStmt); isExpr {
+				switch selCall(es.X) {
+				case recv + ".stateMu.Lock":
+					in = true
+					continue
+				case recv + ".stateMu.Unlock":
+					in = false
+					continue
+				}
+			}
+			res[st] = in
+		}
+		return res
+	}
+	touches := func(n ast.Node, what func(ast.Node) bool) bool {
+		found := false
+		ast.Inspect(n, func(x ast.Node) bool {
+			if x != nil && what(x) {
+				found = true
+			}
+			return !found
+		})
+		return found
+	}
+	isQueueAppend := func(x ast.Node) bool {
+		a, isAssign := x.(*ast.AssignStmt)
+		if !isAssign {
+			return false
+		}
+		for _, l := range a.Lhs {
+			if s, isSel := l.(*ast.SelectorExpr); isSel && s.Sel.Name == "retainedToAnnounce" {
+				return true
+			}
+		}
+		return false
+	}
+	isGoAnnounce := func(x ast.Node) bool {
+		g, isGo := x.(*ast.GoStmt)
+		if !isGo {
+			return false
+		}
+		s, isSel := g.Call.Fun.(*ast.SelectorExpr)
+		return isSel && s.Sel.Name == "announceRetained"
+	}
+	// (ii) in finishSnapshotAsync
+	frecv := recvName(finish)
+	sawAppend, sawGo := false, false
+	for st, in := range locked(finish.Body.List, frecv) {
+		if touches(st, isQueueAppend) {
+			sawAppend = true
+			if !in {
+				fail()
+			}
+		}
+		if touches(st, isGoAnnounce) {
+			sawGo = true
+			if !in {
+				fail()
+			}
+		}
+	}
+	// the go statement is guarded by `if !<recv>.state.announcing { <recv>.state.announcing = true; go … }`
+	guarded := false
+	ast.Inspect(finish.Body, func(x ast.Node) bool {
+		ifs, isIf := x.(*ast.IfStmt)
+		if !isIf {
+			return true
+		}
+		if u, isNot := ifs.Cond.(*ast.UnaryExpr); isNot && u.Op == token.NOT && selName(u.X) == frecv+".state.announcing" {
+			setsFlag := touches(ifs.Body, func(y ast.Node) bool {
+				a, isAssign := y.(*ast.AssignStmt)
+				return isAssign && len(a.Lhs) == 1 && selName(a.Lhs[0]) == frecv+".state.announcing" && selName(a.Rhs[0]) == "true"
+			})
+			if setsFlag && touches(ifs.Body, isGoAnnounce) {
+				guarded = true
+			}
+		}
+		return true
+	})
+	if !sawAppend || !sawGo || !guarded {
+		fail()
+	}
+	// (iii) announceRetained: a single for loop; queue/flag assignments under the lock, the send outside it
+	arecv := recvName(announce)
+	if len(announce.Body.List) != 1 {
+		fail()
+	} else if loop, isFor := announce.Body.List[0].(*ast.ForStmt); !isFor || loop.Cond != nil {
+		fail()
+	} else {
+		sends := 0
+		for st, in := range locked(loop.Body.List, arecv) {
+			touchesState := touches(st, func(y ast.Node) bool {
+				s, isSel := y.(*ast.SelectorExpr)
+				return isSel && (s.Sel.Name == "retainedToAnnounce" || s.Sel.Name == "announcing")
+			})
+			hasSend := touches(st, func(y ast.Node) bool { _, isSend := y.(*ast.SendStmt); return isSend })
+			if touchesState && !in {
+				// the early-return branch unlocks itself: `if len(queue) == 0 { announcing = false; Unlock(); return }`
+				// is a top-level statement inside the locked region, so it is covered by `in`
+				fail()
+			}
+			if hasSend {
+				sends++
+				if in {
+					fail()
+				}
+			}
+		}
+		if sends != 1 {
+			fail()
+		}
+	}
+	b := uint64(0)
+	if ok {
+		b = 1
+	}
+	fc.set("c13SingleAnnouncer", b, true, "")
+}
